@@ -112,6 +112,9 @@ type Scanner struct {
 	// character of its opening is still to come.
 	slashPending bool
 
+	// blockCommentOpen a ### comment was opened and not closed yet.
+	blockCommentOpen bool
+
 	hasTrailingCharacters bool
 }
 
@@ -241,8 +244,9 @@ func (s *Scanner) Next() (lexeme.LexEvent, bool) {
 		}
 	}
 
-	if s.slashPending {
-		// The text ends right after the first slash of an annotation.
+	if s.slashPending || s.blockCommentOpen {
+		// The text ends right after the first slash of an annotation, or inside
+		// a ### comment that is never closed.
 		err := kit.NewJSchemaError(s.file, errs.ErrUnexpectedEOF.F())
 		err.SetIndex(s.dataSize - 1)
 		panic(err)
@@ -1271,6 +1275,7 @@ func stateAnyCommentStart(s *Scanner, c byte) state {
 	} else if s.index < s.dataSize && s.data.Byte(s.index) == '#' { // third #
 		s.annotation = annotationNone
 		s.step = stateMultiLineComment
+		s.blockCommentOpen = true
 		return scanContinue
 	}
 
@@ -1292,6 +1297,7 @@ func stateMultiLineComment(s *Scanner, c byte) state {
 			s.index++ // skip second #
 			s.index++ // skip third #
 			s.step = s.returnToStep.Pop()
+			s.blockCommentOpen = false
 		}
 	}
 	return scanContinue
